@@ -24,9 +24,16 @@ ShadowEntry(step, e) ==
   /\ ~("asked" \in DOMAIN e /\ e.str.k = "bare" /\ e.asked # <<>>
        /\ e.asked = SubSeq(e.uri, 1, Len(e.uri) - Len(e.str.l)))
 
+(* KF-C03-bare-colon: a name in the default namespace whose local part contains a colon prints   *)
+(* bare as "u:x"; valid_qualified_name reads that text as prefix "u" + local "x" (or as a URI    *)
+(* with a scheme) and finds nothing.  Only this shape: printed bare, colon in the local part,     *)
+(* re-resolution yields no name at all.                                                           *)
+BareColonEntry(e) == e.str.k = "bare" /\ ColonLocal(e.str.l) /\ ~e.now.ok
 KF_C03c(step) ==
   LET bad == {i \in 1..Len(step.reres) : ~C03cEntry(step.reres[i])} IN
-  IF bad # {} /\ \A i \in bad : ShadowEntry(step, step.reres[i]) THEN "KF-C03-shadow" ELSE ""
+  IF bad # {} /\ \A i \in bad : ShadowEntry(step, step.reres[i]) \/ BareColonEntry(step.reres[i])
+  THEN (IF \E i \in bad : BareColonEntry(step.reres[i]) THEN "KF-C03-bare-colon" ELSE "KF-C03-shadow")
+  ELSE ""
 
 (* KF-C05-settime-replace: ProvActivity.set_time assigns the new value without  *)
 (* the single-value guard, so a different existing start/end time is replaced   *)
